@@ -752,7 +752,22 @@ func (w *world) exec1(op string) string {
 				}
 			}
 		}
+		sizeBefore := w.om.Size()
 		n, err := w.om.Decode(w.api, b)
+		// what the generated inputs reach (C11_codec_decode_into_receiver is about all of these; what a Decode does to the
+		// entries the receiver already has is not a clause of the property, so it is compared with the model, not judged)
+		switch {
+		case sizeBefore == 0 && err == nil:
+			w.r.Count("mdec:empty-receiver,ok")
+		case sizeBefore == 0:
+			w.r.Count("mdec:empty-receiver,err")
+		case err == nil:
+			w.r.Count("mdec:nonempty-receiver,ok")
+		case w.om.Size() != sizeBefore:
+			w.r.Count("mdec:nonempty-receiver,err-after-new-keys")
+		default:
+			w.r.Count("mdec:nonempty-receiver,err")
+		}
 		// bring the reference in line with whatever was decoded (the reference has no codec)
 		w.resyncOM()
 		st := fmt.Sprintf("ok %d", n)
